@@ -417,6 +417,13 @@ def h0_user(inst):
     return h
 
 
+def int_cast(a, inst):
+    """Integer-valued real terms in integer dtype (what `np.diag([0, 2, 4])` gives a user)."""
+    if inst.get("int_dtype") and a.dtype == float and np.all(a == np.round(a)):
+        return a.astype(np.int64)
+    return a
+
+
 def concrete_hamiltonian(inst):
     """Build the dict {order: value} in the requested concrete value type."""
     from scipy import sparse
@@ -432,11 +439,11 @@ def concrete_hamiltonian(inst):
         if vt == "sympy":
             out[n] = to_sympy(m)
         elif vt == "numpy":
-            out[n] = to_numpy(m)
+            out[n] = int_cast(to_numpy(m), inst)
         elif vt == "numpy_complex":
             out[n] = to_numpy(m, force_complex=True)
         elif vt == "sparse":
-            out[n] = sparse.csr_array(to_numpy(m))
+            out[n] = sparse.csr_array(int_cast(to_numpy(m), inst))
         else:
             raise ValueError(vt)
     return out
@@ -698,7 +705,7 @@ def describe(inst):
             Mi=[[[f(x), f(y)] for (x, y) in row] for row in inst["basis"]["Mi"]]),
         k=inst["k"], N=inst["N"], vtype=inst["vtype"], fdkind=inst["fdkind"],
         fd_blocks=inst["fd_blocks"], hermitian=inst.get("hermitian", True),
-        format=inst.get("format", "dict"), symnames=inst.get("symnames"),
+        format=inst.get("format", "dict"), symnames=inst.get("symnames"), int_dtype=bool(inst.get("int_dtype")),
         masks={str(b): m.astype(int).tolist() for b, m in inst["masks"].items()},
         terms={",".join(map(str, n)): [[[f(x), f(y)] for (x, y) in row] for row in m]
                for n, m in inst["terms"].items()},
@@ -718,7 +725,7 @@ def from_description(desc):
             Mi=[[(g(x), g(y)) for (x, y) in row] for row in desc["basis"]["Mi"]]),
         k=desc["k"], N=desc["N"], vtype=desc["vtype"], fdkind=desc["fdkind"],
         fd_blocks=desc["fd_blocks"], hermitian=desc.get("hermitian", True),
-        format=desc.get("format", "dict"), symnames=desc.get("symnames"),
+        format=desc.get("format", "dict"), symnames=desc.get("symnames"), int_dtype=desc.get("int_dtype", False),
         masks={int(b): np.array(m, dtype=bool) for b, m in desc["masks"].items()},
         terms={tuple(int(x) for x in n.split(",")): [[(g(x), g(y)) for (x, y) in row] for row in m]
                for n, m in desc["terms"].items()},
